@@ -833,7 +833,7 @@ func BoxShadowHandler(value string) bool {
 }
 
 func BoxSizingHandler(value string) bool {
-	values := []string{"slicontent-box", "border-box", "initial", "inherit"}
+	values := []string{"content-box", "border-box", "initial", "inherit"}
 	splitVals := splitValues(value)
 	return in(splitVals, values)
 }
